@@ -233,6 +233,7 @@ def run(prog: Program, rep: Report, tier: str):
     from . import c15 as _c15
 
     _c15.alias_substitution(prog, rep, "R05.9")
+    _c15.string_annotation_parameters(prog, rep, "R05.9")
     facts = {}
     for d in ("marshal", "unmarshal"):
         ff = factory_facts(prog, d)
